@@ -138,6 +138,9 @@ class StmtMixin:
             if isinstance(v, tuple): raise Undecided('untyped list of lists')
             if isinstance(v, VNone) and dk == 'ref': v = VRef(NULL)          # declared: None | object reference
             if isinstance(v, (VNone, VInt)) and dk == 'optint': v = VOpt(self.toopt(v))
+            if dk == 'linetoks' and isinstance(v, VStr):      # declared: one line assembled token by token (models_text)
+                from .models_text import line_tokens_append
+                v = line_tokens_append(self, empty_list('tok'), v, p, line)
             if dk == 'text' and isinstance(v, VStr):          # declared: a text assembled in whole lines (models_text)
                 from .models_text import text_append, empty_text
                 v = text_append(self, empty_text(), v, p, line)
@@ -247,7 +250,12 @@ class StmtMixin:
         if isinstance(cur, VExt) and cur.tag == 'LpProblem' and isinstance(s.op, ast.Add):
             self.lp_add_impl(self, r, p, s.lineno)
             return [('normal', p, None)]
-        if isinstance(cur, VText) and isinstance(s.op, ast.Add) and isinstance(r, VStr):
+        if isinstance(s.target, ast.Name) and self.contract.get('locals', {}).get(s.target.id) == 'linetoks' and isinstance(cur, VList) and cur.kind == 'tok' \
+                and isinstance(s.op, ast.Add) and isinstance(r, VStr):
+            from .models_text import line_tokens_append
+            in_loop = any(s is n for lp in ast.walk(self.fn.node) if isinstance(lp, (ast.For, ast.While)) for n in ast.walk(lp))
+            v = line_tokens_append(self, cur, r, p, s.lineno, in_loop)
+        elif isinstance(cur, VText) and isinstance(s.op, ast.Add) and isinstance(r, VStr):
             from .models_text import text_append
             v = text_append(self, cur, r, p, s.lineno)
         elif isinstance(cur, VStr) and isinstance(s.op, ast.Add) and isinstance(r, VStr):
